@@ -26,17 +26,28 @@ ASSUMPTIONS = [
 
 
 def _key_gen(m):
-    # first differing place between want and got
+    # first differing place between want and got; the route (which API of allsorts was asked) is part of the key
+    # except for the FontData route, whose keys are those of the earlier rounds
     w, g = m["want"], m["got"]
+    pre = "gen" if m.get("route", "fontdata") == "fontdata" else "gen-" + m["route"]
     if "panic" in g:
-        return "gen|%s|%s|panic" % (m["kind"], m["damage"])
+        return "%s|%s|%s|panic" % (pre, m["kind"], m["damage"])
     if w.get("load") != g.get("load") or w.get("kind") != g.get("kind"):
-        return "gen|%s|%s|load" % (m["kind"], m["damage"])
+        return "%s|%s|%s|load" % (pre, m["kind"], m["damage"])
     for a, b in zip(w["members"], g["members"]):
         for f in ("ok", "flavor", "tags", "has", "data"):
             if a.get(f) != b.get(f):
-                return "gen|%s|%s|member.%s" % (m["kind"], m["damage"], f)
-    return "gen|%s|%s|members" % (m["kind"], m["damage"])
+                return "%s|%s|%s|member.%s" % (pre, m["kind"], m["damage"], f)
+    return "%s|%s|%s|members" % (pre, m["kind"], m["damage"])
+
+
+# Families of layout / form that MC_Sfnt must have generated (MC_Sfnt!Variant, counted by the replay over the CASE lines
+# it was given - TLC's output, not allsorts' answers).
+REQUIRED_VARIANTS = (
+    ["ttc:%s" % l for l in ("after", "before", "split", "tail", "revdirs", "inter")]
+    + ["ttc:%s" % h for h in ("v1", "v2null", "v2dsig")] + ["ttc:shared", "ttc:real", "sfnt:real", "sfnt:plain"]
+    + ["woff:%s" % v for v in ("z0", "zhdr", "zsplit", "none", "meta", "metapriv", "real")]
+)
 
 
 # Size classes the synthesized WOFF containers of the record mode must contain.  They are counted by the
@@ -54,6 +65,12 @@ REQUIRED_CLASSES = (
     + ["woff:data:%s:comp>32768" % d for d in ("rand", "rand+zeros", "text", "period32768", "period32769")]
     + ["woff:data:%s:comp<=32768" % d for d in ("zeros", "period7", "period258", "text", "rand", "empty")]
     + ["woff:data:zlib-stream", "sfnt:orig>=262146", "ttc:orig>=262146"]
+    # physical layouts of recorded collections (header / data / offset tables and the other orders), header forms,
+    # shared offset tables, mixed flavours; optional WOFF blocks
+    + ["ttc:lay:%s:hdr:%s" % (l, h) for l in ("after", "before", "split", "tail", "revdirs", "inter", "random")
+       for h in ("v1", "v2null", "v2dsig")]
+    + ["ttc:fields:real", "ttc:fields:zero", "ttc:shared-offset-table", "ttc:mixed-flavours"]
+    + ["ttc:members:%d" % n for n in (1, 2, 3, 4)] + ["woff:ext:0", "woff:ext:1", "woff:ext:2"]
 )
 
 SELF_REJECT = {("selftest-digest", "Query"), ("selftest-length", "Query"), ("selftest-beyond", "Provider"),
@@ -197,10 +214,22 @@ def _run(ctx, violations, cov):
         ctx.note("replay[%s]: %s" % (name, json.dumps(rep)))
         totals["queries"] += rep["queries"]
         kinds = rep["kinds"]
+        missing = [v for v in REQUIRED_VARIANTS if rep.get("variants", {}).get(v, 0) == 0]
+        if missing:
+            raise vlib.ToolError("layout / form families not generated by MC_Sfnt: %s" % missing)
+        cov["generated_case_variants"] = rep["variants"]
+        gen_per_key = {}
         for m in vlib.read_ndjson(mism_path):
-            violations.append(Violation(_key_gen(m) + "|" + name, "generated %s/%s container: want %s got %s" %
-                                        (m["kind"], m["damage"], vlib.short(m["want"], 200), vlib.short(m["got"], 200)),
+            gk = _key_gen(m)
+            gen_per_key[gk] = gen_per_key.get(gk, 0) + 1
+            if gen_per_key[gk] > 5:          # the first five cases of a key are kept in full, the rest are counted
+                continue
+            violations.append(Violation(_key_gen(m) + "|" + name, "generated %s/%s container (%s) asked through route '%s': want %s got %s" %
+                                        (m["kind"], m["damage"], m.get("variant", ""), m.get("route", "fontdata"),
+                                         vlib.short(m["want"], 200), vlib.short(m["got"], 200)),
                                         {"source": "generated", "backend": name, **m}))
+        for gk, n in sorted(gen_per_key.items()):
+            ctx.note("generated mismatch class %s|%s: %d cases" % (gk, name, n))
         cov.update({"transitions": totals["queries"], "generated_case_kinds": kinds,
                     "queries_on_generated_cases": totals["queries"],
                     "traces_validated_against_impl": n_cases[0] * (1 + backends.index((name, feat, suffix)))})
@@ -277,11 +306,12 @@ def replay(ctx, path):
         return 1
     feat, suffix = (None, "") if d["backend"] == "zlib" else ("rust", "-rust")
     binp = vlib.build_harness("c10_containers", features=feat, target_suffix=suffix)
-    case = {"kind": d["kind"], "damage": d["damage"], "bytes": d["bytes"], "qtags": d["qtags"], "exp": d["want"]}
+    case = {"kind": d["kind"], "damage": d["damage"], "variant": d.get("variant", ""), "bytes": d["bytes"], "qtags": d["qtags"], "exp": d["want"]}
     vlib.write_ndjson(ctx.path("case.ndjson"), [case])
     rep = vlib.run_harness(binp, ["replay", ctx.path("case.ndjson"), ctx.path("mm.ndjson")])
     mm = vlib.read_ndjson(ctx.path("mm.ndjson"))
+    mm = [m for m in mm if m.get("route", "fontdata") == d.get("route", "fontdata")]
     for m in mm:
-        print("REPRODUCED want=%s got=%s" % (vlib.short(m["want"]), vlib.short(m["got"])))
+        print("REPRODUCED route=%s want=%s got=%s" % (m.get("route"), vlib.short(m["want"]), vlib.short(m["got"])))
     print(json.dumps(rep))
     return 1 if mm else 0
